@@ -445,6 +445,28 @@ def shared_output_loop(n_cont, explicit_gate_kind="route"):
     return prog, [["messages", "in.messages"]], meta
 
 
+def explicit_edges_loop(n_cont, gate_kind="route"):
+    """Documented chat loop with EXPLICIT EDGES (docs/03-patterns/03-agentic-loops.md "With Explicit
+    Edges", docs/06-api-reference/graph.md): add_query and add_response both produce `messages`; the
+    declared topology is add_query -> generate -> add_response -> {should_continue, add_query}.
+    Sequential meaning of that topology: (add_query; generate; add_response; gate) repeated while the
+    gate says add_query."""
+    aq = IR.func("add_query", ["messages", "query"], ["messages"])
+    ge = IR.func("generate", ["messages"], ["response"])
+    ar = IR.func("add_response", ["messages", "response"], ["messages"])
+    script = [["add_query"]] * n_cont + [["END"]]
+    if gate_kind == "ifelse":
+        g = IR.ifelse("should_continue", ["messages"], "add_query", "END", script)
+    else:
+        g = IR.route("should_continue", ["messages"], ["add_query", "END"], script)
+    prog = IR.prog("top", [aq, ge, ar, g], max_iter=14)
+    prog["edges"] = [["add_query", "generate"], ["generate", "add_response"], ["add_response", "should_continue"], ["add_response", "add_query"]]
+    meta = {"shape": "explicit", "body": ["add_query", "generate", "add_response"], "gate": "should_continue", "exit": IR.NONE, "entry": 1,
+            "frame": "", "seed": [["messages", "in.messages"], ["query", "in.query"]], "n_cont": n_cont,
+            "expect": [], "sequential": [[n, n_cont + 1] for n in ("add_query", "generate", "add_response", "should_continue")]}
+    return prog, [["messages", "in.messages"], ["query", "in.query"]], meta
+
+
 def rename_nodes(prog, mapping):
     """Consistently rename nodes (names, gate targets, scripts, entry points)."""
     import copy as _c
